@@ -298,8 +298,11 @@ class Outcome:
     def violation(self, key, desc, replay_payload):
         f = finding_for(self.prop, key)
         if f:
-            self.known.append((key, desc))
+            if not any(k == key for k, _ in self.known):
+                self.known.append((key, desc))
             return
+        if any(k == key for k, _, _ in self.violations):
+            return          # one report (and one replay file) per role
         path = write_replay(self.prop, re.sub(r'[^A-Za-z0-9_.-]', '_', key)[:80], replay_payload)
         self.violations.append((key, desc, path))
 
